@@ -31,7 +31,11 @@ CONSTANTS MaxPeer,            \* peer packets per history
           MaxObj,             \* channel objects ever created per history
           Configs,            \* initial configurations: subset of {"empty", "in", "out", "both", "reopen"}
           RejectChecksSlot,   \* BOOLEAN, see above
-          Lite                \* BOOLEAN: reduced peer alphabet (ids 0..1, one malformed variant per kind) for deeper histories
+          Lite,               \* BOOLEAN: reduced peer alphabet (ids 0..1, one malformed variant per kind) for deeper histories
+          Hold,               \* BOOLEAN: small-step want-reply requests: "request begun, write held by the transport" / "write
+                              \*   returned" with peer replies in between; restricts both alphabets to the request/reply family
+          DrainAll            \* BOOLEAN: TRUE = SendRequest discards EVERY buffered reply before a new request (the code);
+                              \*   FALSE = discards at most one (a plausible simplification; M1 must reject it)
 
 Slots == 0 .. 2                                  \* channel ids the peer addresses (table never grows beyond 3 here)
 
@@ -47,6 +51,9 @@ NewObj(lid, dir, rid, rwin) ==
    inq |-> dir = "in",    \* waiting in the application's list of undecided NewChannels
    reqq |-> <<>>,         \* incoming channel requests not yet seen by the application (want-reply flags)
    opener |-> 0, waiter |-> 0,            \* call blocked in openChannel / SendRequest(wantReply) on ch.msg
+   msgq |-> <<>>,         \* replies buffered in ch.msg: [v |-> verdict, ep |-> request number current when it arrived]
+   reqno |-> 0,           \* want-reply requests begun on this channel so far
+   hold |-> FALSE,        \* the pending request's writePacket has not returned yet (transport stalled, e.g. key exchange)
    eof |-> FALSE]
 
 Pkt(t, a, b) == [t |-> t, a |-> a, b |-> b]
@@ -54,7 +61,9 @@ Ev(k, id, v, x) == [k |-> k, id |-> id, v |-> v, x |-> x]
 
 EmptyS == [tab |-> [i \in Slots |-> 0], obj |-> <<>>, calls |-> <<>>, gwait |-> 0, dead |-> FALSE,
            out |-> <<>>, done |-> {}, last |-> Ev("init", 0, "empty", 0), np |-> 0, nl |-> 0,
-           stale |-> FALSE, lost |-> {}, known |-> FALSE, cfg |-> "empty"]
+           stale |-> FALSE, lost |-> {}, known |-> FALSE, cfg |-> "empty",
+           gq |-> <<>>, greqno |-> 0, ghold |-> FALSE,   \* globalResponses (capacity 1), global request number, held write
+           bad |-> FALSE]                                 \* ghost: a reply was handed to a request begun after it arrived
 
 HasFree(s) == \E i \in Slots : s.tab[i] = 0
 FreeSlot(s) == CHOOSE i \in Slots : s.tab[i] = 0 /\ \A j \in Slots : j < i => s.tab[j] # 0
@@ -87,9 +96,9 @@ Die(s) ==
       wake == ({s.obj[o].opener : o \in res} \cup {s.obj[o].waiter : o \in res} \cup {s.gwait}) \ {0}
   IN [s EXCEPT
         !.obj = [o \in 1 .. NObj(s) |->
-                   IF o \in res THEN [s.obj[o] EXCEPT !.closed = TRUE, !.sentClose = TRUE, !.opener = 0, !.waiter = 0]
+                   IF o \in res THEN [s.obj[o] EXCEPT !.closed = TRUE, !.sentClose = TRUE, !.opener = 0, !.waiter = 0, !.msgq = <<>>]
                    ELSE s.obj[o]],
-        !.tab = [i \in Slots |-> 0], !.dead = TRUE, !.gwait = 0,
+        !.tab = [i \in Slots |-> 0], !.dead = TRUE, !.gwait = 0, !.gq = <<>>,
         !.calls = [c \in 1 .. Len(s.calls) |-> IF c \in wake THEN [s.calls[c] EXCEPT !.st = "done", !.res = "err"] ELSE s.calls[c]],
         !.done = @ \cup {<<c, "err">> : c \in wake}]
 
@@ -135,7 +144,7 @@ PClose(s, id) ==
   IF o = 0 THEN Die(s)
   ELSE LET r == s.obj[o]
            s1 == IF r.sentClose THEN s ELSE Emit(s, Pkt("close", IF r.rid < 0 THEN 0 ELSE r.rid, 0))
-           s2 == [SetObj(s1, o, [r EXCEPT !.closed = TRUE, !.sentClose = TRUE, !.opener = 0, !.waiter = 0]) EXCEPT !.tab[id] = 0]
+           s2 == [SetObj(s1, o, [r EXCEPT !.closed = TRUE, !.sentClose = TRUE, !.opener = 0, !.waiter = 0, !.msgq = <<>>]) EXCEPT !.tab[id] = 0]
        IN Finish(Finish(s2, r.opener, "err"), r.waiter, "err")
 
 PAdj(s, id, v) ==
@@ -152,15 +161,23 @@ PCReq(s, id, v) ==
          THEN (IF v = "wr" /\ ~s.obj[o].sentClose THEN Emit(s, Pkt("chanfail", s.obj[o].rid, 0)) ELSE s)
          ELSE SetObj(s, o, [s.obj[o] EXCEPT !.reqq = Append(@, v = "wr")])
 
+Verdict(b) == IF b THEN "true" ELSE "false"
+ChanMsgCap == 16                                                 \* chanSize
+
 PCReply(s, id, ok) ==                                            \* channel success / failure
   LET o == At(s, id) IN
   IF o = 0 THEN Die(s)
   ELSE IF s.obj[o].waiter = 0 THEN s                             \* gate closed: dropped
-  ELSE Finish(SetObj(s, o, [s.obj[o] EXCEPT !.waiter = 0]), s.obj[o].waiter, IF ok THEN "true" ELSE "false")
+  ELSE IF s.obj[o].hold                                          \* gate open, caller still inside writePacket:
+         THEN IF Len(s.obj[o].msgq) < ChanMsgCap                 \* non-blocking send into ch.msg
+                THEN SetObj(s, o, [s.obj[o] EXCEPT !.msgq = Append(@, [v |-> ok, ep |-> s.obj[o].reqno])])
+                ELSE s
+  ELSE Finish(SetObj(s, o, [s.obj[o] EXCEPT !.waiter = 0]), s.obj[o].waiter, Verdict(ok))   \* caller is receiving
 
 PGReq(s, v) == IF v = "wr" THEN Emit(s, Pkt("gfail", 0, 0)) ELSE s
 PGReply(s, ok) == IF s.gwait = 0 THEN s
-                  ELSE Finish([s EXCEPT !.gwait = 0], s.gwait, IF ok THEN "true" ELSE "false")
+                  ELSE IF s.ghold THEN (IF Len(s.gq) < 1 THEN [s EXCEPT !.gq = Append(@, [v |-> ok, ep |-> s.greqno])] ELSE s)
+                  ELSE Finish([s EXCEPT !.gwait = 0], s.gwait, Verdict(ok))
 PPing(s, v) == IF v = "short" THEN Die(s) ELSE Emit(s, Pkt("pong", 0, 0))
 
 FullPeerEvents(s) ==
@@ -184,7 +201,20 @@ LitePeerEvents(s) ==
   \cup {Ev("creq", id, v, 0) : id \in LiteIds, v \in {"wr", "nowr"}}
   \cup {Ev("greq", 0, "wr", 0), Ev("gsucc", 0, "", 0), Ev("gfail", 0, "", 0), Ev("ping", 0, "ok", 0), Ev("peereof", 0, "", 0)}
 
-PeerEvents(s) == IF Lite THEN LitePeerEvents(s) ELSE FullPeerEvents(s)
+Holding(s) == s.ghold \/ \E o \in 1 .. NObj(s) : s.obj[o].hold
+HeldIds(s) == {i \in Slots : s.tab[i] # 0 /\ s.obj[s.tab[i]].hold}
+\* while a write is held only packets that make neither the loop nor the application write on the same
+\* channel are injected (they would queue behind the held write on a mutex, which is not a quiescent state)
+HoldPeerEvents(s) ==
+  {Ev(k, id, "", 0) : k \in {"csucc", "cfail"}, id \in HeldIds(s)}
+  \cup {Ev("gsucc", 0, "", 0), Ev("gfail", 0, "", 0), Ev("ping", 0, "ok", 0)}
+ReplyPeerEvents(s) ==
+  {Ev(k, id, "", 0) : k \in {"csucc", "cfail"}, id \in LiteIds}
+  \cup {Ev("gsucc", 0, "", 0), Ev("gfail", 0, "", 0), Ev("ping", 0, "ok", 0)}
+
+PeerEvents(s) == IF Holding(s) THEN HoldPeerEvents(s)
+                 ELSE IF Hold THEN ReplyPeerEvents(s)
+                 ELSE IF Lite THEN LitePeerEvents(s) ELSE FullPeerEvents(s)
 
 PeerStep(s0, e) ==
   LET s == [Begin(s0, e) EXCEPT !.np = @ + 1, !.known = (s0.tab[e.id] # 0)] IN
@@ -217,15 +247,37 @@ LOpen(s) ==                                                      \* mux.OpenChan
   IF s.dead THEN Finish(SetObj(s1, o, [s1.obj[o] EXCEPT !.opener = 0]), Me(s), "err")   \* write fails (the entry stays in the dead table)
   ELSE Emit(s1, Pkt("open", lid, 0))
 
-LGReq(s, v) ==                                                   \* mux.SendRequest
-  IF s.dead THEN Finish(s, Me(s), "err")
-  ELSE LET s1 == Emit(s, Pkt("greq", 0, IF v = "wr" THEN 1 ELSE 0)) IN
-       IF v = "wr" THEN [s1 EXCEPT !.gwait = Me(s)] ELSE Finish(s1, Me(s), "ok")
+\* the drain at the start of a want-reply request
+Drained(q) == IF DrainAll \/ q = <<>> THEN <<>> ELSE Tail(q)
 
-LCReq(s, o, v) ==                                                \* Channel.SendRequest on a held channel
+\* the caller of object o's pending request reaches `<-ch.msg`: it takes the oldest buffered reply, if any
+CTake(s, o) ==
+  LET r == s.obj[o] IN
+  IF r.msgq = <<>> THEN s
+  ELSE [Finish(SetObj(s, o, [r EXCEPT !.waiter = 0, !.msgq = Tail(@)]), r.waiter, Verdict(Head(r.msgq).v))
+          EXCEPT !.bad = @ \/ Head(r.msgq).ep # r.reqno]
+GTake(s) ==
+  IF s.gq = <<>> THEN s
+  ELSE [Finish([s EXCEPT !.gwait = 0, !.gq = Tail(@)], s.gwait, Verdict(Head(s.gq).v))
+          EXCEPT !.bad = @ \/ Head(s.gq).ep # s.greqno]
+
+LGReq(s, v, held) ==                                             \* mux.SendRequest
+  IF s.dead THEN Finish(s, Me(s), "err")
+  ELSE IF v # "wr" THEN Finish(Emit(s, Pkt("greq", 0, 0)), Me(s), "ok")
+  ELSE LET s1 == [s EXCEPT !.gwait = Me(s), !.greqno = @ + 1, !.gq = <<>>, !.ghold = held] IN   \* gate, drain (capacity 1)
+       IF held THEN s1 ELSE GTake(Emit(s1, Pkt("greq", 0, 1)))
+
+LCReq(s, o, v, held) ==                                          \* Channel.SendRequest on a held channel
   IF s.obj[o].sentClose \/ s.dead THEN Finish(s, Me(s), "err")   \* writePacket refuses after close: io.EOF
-  ELSE LET s1 == Emit(s, Pkt("creq", s.obj[o].rid, IF v = "wr" THEN 1 ELSE 0)) IN
-       IF v = "wr" THEN SetObj(s1, o, [s.obj[o] EXCEPT !.waiter = Me(s)]) ELSE Finish(s1, Me(s), "ok")
+  ELSE IF v # "wr" THEN Finish(Emit(s, Pkt("creq", s.obj[o].rid, 0)), Me(s), "ok")
+  ELSE LET s1 == SetObj(s, o, [s.obj[o] EXCEPT !.waiter = Me(s), !.reqno = @ + 1, !.msgq = Drained(@), !.hold = held]) IN
+       IF held THEN s1 ELSE CTake(Emit(s1, Pkt("creq", s.obj[o].rid, 1)), o)
+
+\* the transport lets the held write return: the request packet appears and the caller starts receiving
+Release(s) ==
+  IF s.ghold THEN GTake(Emit([s EXCEPT !.ghold = FALSE], Pkt("greq", 0, 1)))
+  ELSE LET o == CHOOSE x \in 1 .. NObj(s) : s.obj[x].hold IN
+       CTake(Emit(SetObj(s, o, [s.obj[o] EXCEPT !.hold = FALSE]), Pkt("creq", s.obj[o].rid, 1)), o)
 
 LAccept(s, o) ==
   LET r == s.obj[o] IN
@@ -249,21 +301,33 @@ LClose(s, o) ==
   ELSE IF s.dead THEN Finish(SetObj(s, o, [r EXCEPT !.sentClose = TRUE]), Me(s), "err")
   ELSE Finish(Emit(SetObj(s, o, [r EXCEPT !.sentClose = TRUE]), Pkt("close", r.rid, 0)), Me(s), "ok")
 
-LocalEvents(s) ==
-  {Ev("opench", 0, "", 0) : x \in IF HasFree(s) /\ NObj(s) < MaxObj THEN {1} ELSE {}}
-  \cup {Ev("lgreq", 0, v, 0) : v \in IF s.gwait = 0 THEN {"wr", "nowr"} ELSE {"nowr"}}
+RequestEvents(s) ==
+  {Ev("lgreq", 0, v, 0) : v \in IF s.gwait = 0 THEN {"wr", "nowr"} ELSE {"nowr"}}
   \cup {Ev("lcreq", o, v, 0) : o \in {x \in 1 .. NObj(s) : s.obj[x].held},
                               v \in {"wr", "nowr"}}
+HoldEvents(s) ==                                   \* want-reply requests whose write the transport holds
+  {Ev("lgreqh", 0, "wr", 0) : x \in IF s.gwait = 0 THEN {1} ELSE {}}
+  \cup {Ev("lcreqh", o, "wr", 0) : o \in {x \in 1 .. NObj(s) : s.obj[x].held}}
+LocalEvents(s) ==
+  IF Holding(s) THEN {Ev("release", 0, "", 0)}
+  ELSE IF Hold THEN RequestEvents(s) \cup HoldEvents(s)
+  ELSE
+  {Ev("opench", 0, "", 0) : x \in IF HasFree(s) /\ NObj(s) < MaxObj THEN {1} ELSE {}}
+  \cup RequestEvents(s)
   \cup {Ev(k, o, "", 0) : k \in {"accept", "reject"}, o \in {x \in 1 .. NObj(s) : s.obj[x].inq}}
   \cup {Ev("closech", o, "", 0) : o \in {x \in 1 .. NObj(s) : s.obj[x].held}}
 
-LocalOK(s, e) == e.k = "lcreq" /\ e.v = "wr" => s.obj[e.id].waiter = 0   \* one want-reply request per gate
+LocalOK(s, e) == (e.k \in {"lcreq", "lcreqh"} /\ e.v = "wr") => s.obj[e.id].waiter = 0   \* one want-reply request per gate
 
 LocalStep(s0, e) ==
+  IF e.k = "release" THEN Release([Begin(s0, e) EXCEPT !.nl = @ + 1])       \* not a call of its own
+  ELSE
   LET s == NewCall([Begin(s0, e) EXCEPT !.nl = @ + 1], e) IN
   CASE e.k = "opench" -> LOpen(s)
-    [] e.k = "lgreq" -> LGReq(s, e.v)
-    [] e.k = "lcreq" -> LCReq(s, e.id, e.v)
+    [] e.k = "lgreq" -> LGReq(s, e.v, FALSE)
+    [] e.k = "lcreq" -> LCReq(s, e.id, e.v, FALSE)
+    [] e.k = "lgreqh" -> LGReq(s, e.v, TRUE)
+    [] e.k = "lcreqh" -> LCReq(s, e.id, e.v, TRUE)
     [] e.k = "accept" -> LAccept(s, e.id)
     [] e.k = "reject" -> LReject(s, e.id)
     [] e.k = "closech" -> LClose(s, e.id)
@@ -278,7 +342,7 @@ Preamble(c) ==
     [] c = "reopen" -> <<Ev("open", 0, "ok", 101), Ev("close", 0, "", 0), Ev("open", 0, "ok", 102)>>   \* slot 0 reused while
                                                                   \* the application still has to decide the first NewChannel
 
-IsLocal(e) == e.k \in {"opench", "lgreq", "lcreq", "accept", "reject", "closech"}
+IsLocal(e) == e.k \in {"opench", "lgreq", "lcreq", "lgreqh", "lcreqh", "release", "accept", "reject", "closech"}
 RECURSIVE Run(_, _)
 Run(s, es) == IF es = <<>> THEN s
               ELSE Run(IF IsLocal(Head(es)) THEN LocalStep(s, Head(es)) ELSE PeerStep(s, Head(es)), Tail(es))
@@ -306,11 +370,19 @@ ReplyRes == {"true", "false"}
 
 \* M1 a reply value reaches a caller only in the step in which a matching reply packet arrived, and
 \*    only a caller whose want-reply request was pending before that packet.
-M1 == \A d \in S.done : d[2] \in ReplyRes =>
-        /\ S.calls[d[1]].k \in {"lgreq", "lcreq"}
-        /\ S.last.k \in (IF S.calls[d[1]].k = "lgreq" THEN {"gsucc", "gfail"} ELSE {"csucc", "cfail"})
-        /\ d[2] = (IF S.last.k \in {"gsucc", "csucc"} THEN "true" ELSE "false")
-        /\ d[1] < Len(S.calls) \/ ~IsLocal(S.last)               \* the call was started in an earlier step
+\*    Finer grain (held writes): a reply that arrived while the caller's write was still held is handed over
+\*    when that write returns ("release"); it is never handed to a request begun after it arrived (ghost bad),
+\*    so a request can return a reply value neither in the step that begins it nor without a reply of its own.
+M1 == /\ ~S.bad
+      /\ \A d \in S.done : d[2] \in ReplyRes =>
+        /\ S.calls[d[1]].k \in {"lgreq", "lcreq", "lgreqh", "lcreqh"}
+        /\ \/ /\ S.last.k \in (IF S.calls[d[1]].k \in {"lgreq", "lgreqh"} THEN {"gsucc", "gfail"} ELSE {"csucc", "cfail"})
+              /\ d[2] = (IF S.last.k \in {"gsucc", "csucc"} THEN "true" ELSE "false")
+           \/ S.last.k = "release" /\ S.calls[d[1]].k \in {"lgreqh", "lcreqh"}
+        /\ S.last.k \notin {"lgreq", "lcreq", "lgreqh", "lcreqh"}      \* never in the step that begins a request
+\* while a gate is open everything buffered behind it arrived after the current request was begun
+M1d == /\ \A o \in 1 .. NObj(S) : S.obj[o].waiter # 0 => \A i \in 1 .. Len(S.obj[o].msgq) : S.obj[o].msgq[i].ep = S.obj[o].reqno
+       /\ S.gwait # 0 => \A i \in 1 .. Len(S.gq) : S.gq[i].ep = S.greqno
 \* at most one caller per step gets a reply value, and never without a reply packet
 M1b == Cardinality({d \in S.done : d[2] \in ReplyRes}) <= 1
 \* no waiter is registered on a gate of a closed channel / dead mux (it would wait forever)
@@ -347,5 +419,6 @@ TypeOK == /\ S.np \in 0 .. MaxPeer /\ S.nl \in 0 .. MaxLocal
           /\ \A i \in Slots : S.tab[i] # 0 => S.obj[S.tab[i]].lid = i /\ ~S.obj[S.tab[i]].closed
 
 \* what must be true after the harness finally closes the connection: used by the generator
-Final(s) == IF s.dead THEN s ELSE Die(Begin(s, Ev("peereof", 0, "", 0)))
+Final(s) == IF s.dead THEN s
+            ELSE LET b == Begin(s, Ev("peereof", 0, "", 0)) IN Die(IF Holding(b) THEN Release(b) ELSE b)
 =============================================================================
